@@ -288,7 +288,17 @@ func runC09(c *Ctx) {
 		f := describe(cs.Common().Args[1])
 		okTimer = strings.Contains(d, "phi:") || strings.Contains(d, "time.Until(")
 		okTimer = okTimer && strings.Contains(f, "rotate")
-		r.Check("C09.rotate-on-change", "rotate/re-arms itself for the recorded end", m.Pos(cs.Pos()), okTimer && hasFact(factsAt(cs), callResultIs("(time.Time).IsZero", false, nil)), "AfterFunc(max(until(expiry), min), f.rotate) when rotate1 returned a non-zero expiry; got "+d+", "+f)
+		fbT := newFormulaBuilder()
+		fbT.namer = func(v ssa.Value) (string, bool) {
+			if cl, ok := v.(*ssa.Call); ok && calleeName(&cl.Call) == "(*internal/counter.file).rotate1" {
+				return "expiry", true
+			}
+			return "", false
+		}
+		gotT := fbT.reach(cs.Block())
+		okIff, whyT, _ := equivalent(gotT, bNot{bZero{"expiry"}})
+		r.Check("C09.rotate-on-change", "rotate/re-arms itself for the recorded end", m.Pos(cs.Pos()), okTimer && okIff && len(fbT.undec) == 0,
+			"the next rotation is scheduled iff rotate1 returned a non-zero expiry - every time, not only the first (a timer armed once leaves the second week's increments in a finished file): "+whyT+" got "+d+", "+f)
 	}
 	r.Check("C09.rotate-on-change", "rotate/has a timer", m.Pos(rotate.Pos()), okTimer, "rotate must schedule the next rotation")
 
